@@ -414,7 +414,7 @@ pub fn run(prop: &'static str, tier: Tier, seed: u64, findings: &Findings) -> i3
     let check = C17 { prop, cfg: ccfg };
     let mut report = engine::Report::default();
     report.merge(super::run_regress(&check, &cfg, findings));
-    let cases = tier.pick(6000, 300_000);
+    let cases = tier.pick(200_000, 8_000_000);
     report.merge(engine::run_generated(&check, &cfg, cases, 16, 16, findings, 0));
     let rule = match prop {
         "C17" => "cases = generated stylesheets with `:host {}` rules at at-rule depth 0-3 interleaved with ordinary rules, `:host(...)` and `:host .a` combinations x {convert_host, class_prefix, host_is}. Oracle: the model is partitioned into an expected normal sheet (every non-host rule in order inside its at-rules) and an expected low-priority sheet (each pure :host rule as `[wx-host=\"P\"]` (+`,[is=\"H\"]`) wrapped in the same at-rule chain); both outputs are re-tokenised and aligned with them (declarations transformed as elsewhere); combinations are in neither output and each produces a warning; with conversion off the low-priority output is empty. non-trivial = a converted :host rule at at-rule depth >= 2; distinct by source.",
